@@ -296,6 +296,8 @@ CHECKS = {
     'C16': {
         'level': 'model_checking',
         'jobs': [
+            C('hsscn', 'TestHandshaker', 'TraceHandshaker', file='handshaker', trivial_len=3, n={'quick': 400, 'thorough': 100000},
+              scn=[('MC_HsScn', {'quick': ['HsScn.cfg'], 'thorough': ['HsScn.cfg']})]),
             T('MC_Wire', 'Wire.cfg', workers=4),
             C('wire', 'TestWire', 'TraceWire', n={'quick': 60, 'thorough': 800}, trivial_len=3),
             C('wirestall', 'TestWireStall', 'TraceWire', trivial_len=0),
@@ -498,6 +500,8 @@ CHECKS = {
     'C10': {
         'level': 'model_checking',
         'jobs': [
+            C('hsscn', 'TestHandshaker', 'TraceHandshaker', file='handshaker', trivial_len=3, n={'quick': 400, 'thorough': 100000},
+              scn=[('MC_HsScn', {'quick': ['HsScn.cfg'], 'thorough': ['HsScn.cfg']})]),
             C('corescn', 'TestCore', 'TraceCore', file='core', n={'quick': 150, 'thorough': 4000},
               scn=[('MC_CoreScn', {'quick': ['CoreScn_as.cfg'], 'thorough': ['CoreScn_as.cfg', 'CoreScn_sy.cfg']})]),
             T('MC_Core', 'Core_C13.cfg'), T('MC_Req', 'Req_q03.cfg'), T('MC_RepLike', 'Rep_quick.cfg'),
@@ -527,6 +531,8 @@ CHECKS = {
     'C13': {
         'level': 'model_checking',
         'jobs': [
+            C('hsscn', 'TestHandshaker', 'TraceHandshaker', file='handshaker', trivial_len=3, n={'quick': 400, 'thorough': 100000},
+              scn=[('MC_HsScn', {'quick': ['HsScn.cfg'], 'thorough': ['HsScn.cfg']})]),
             C('corescn', 'TestCore', 'TraceCore', file='core', n={'quick': 150, 'thorough': 4000},
               scn=[('MC_CoreScn', {'quick': ['CoreScn_as.cfg'], 'thorough': ['CoreScn_as.cfg', 'CoreScn_sy.cfg']})]),
             T('MC_Inproc', 'Inproc.cfg'), C('inproc', 'TestInproc', 'TraceInproc'),
